@@ -197,7 +197,9 @@ func (tr *trans) goFuncRef(o *types.Func) *fnRef {
 			env.vars["result"] = sv
 		}
 		if i == len(rsyms)-1 && types.Identical(sig.Results().At(i).Type(), types.Universe.Lookup("error").Type()) {
-			env.vars["err"] = sv
+			if _, taken := env.vars["err"]; !taken {
+				env.vars["err"] = sv
+			}
 		}
 	}
 	before := tr.heapReads
@@ -466,6 +468,9 @@ func (tr *trans) call(v ssa.Value, c *ssa.CallCommon, st State) {
 		if callee.Pkg != nil && callee.Pkg.Pkg.Path() == "sync/atomic" && tr.atomicCall(v, callee.Name(), c, st, pos) {
 			return
 		}
+		if callee.Pkg != nil && callee.Pkg.Pkg.Path() == "sort" && (callee.Name() == "Slice" || callee.Name() == "SliceStable") && tr.sortSlice(c, st) {
+			return
+		}
 		if mc, ok := c.Value.(*ssa.MakeClosure); ok {
 			_ = mc
 		}
@@ -663,7 +668,9 @@ func (tr *trans) applyContract(fc *FuncContract, sig *types.Signature, key strin
 			env2.vars["result"] = sv
 		}
 		if i == len(rs)-1 && types.Identical(sig.Results().At(i).Type(), types.Universe.Lookup("error").Type()) {
-			env2.vars["err"] = sv
+			if _, taken := env.vars["err"]; !taken {
+				env2.vars["err"] = sv
+			}
 		}
 	}
 	if !(fc.PureFn && preRes != nil && recv == nil && false) {
@@ -1017,4 +1024,37 @@ func funcFieldKey(v ssa.Value) string {
 		return ""
 	}
 	return n.Obj().Pkg().Path() + "." + n.Obj().Name() + "." + s.Field(idx).Name()
+}
+
+// sortSlice models sort.Slice(x, less): the slice content becomes a permutation of itself (every new
+// element is an old one and vice versa); the order produced by `less` is not modelled.
+func (tr *trans) sortSlice(c *ssa.CallCommon, st State) bool {
+	mi, ok := c.Args[0].(*ssa.MakeInterface)
+	if !ok {
+		return false
+	}
+	sl, ok := mi.X.Type().Underlying().(*types.Slice)
+	if !ok {
+		return false
+	}
+	s := tr.val(mi.X)
+	et := sl.Elem()
+	es := tr.vc.sortOf(et)
+	h := tr.arrHeap(et)
+	A := tr.getState(st, h)
+	old := sel(A, "(sarr "+s+")")
+	nb := tr.vc.fresh("sorted")
+	tr.vc.declConst(nb, "(Array Int "+es+")")
+	perm := tr.vc.fresh("perm")
+	inv := tr.vc.fresh("perminv")
+	tr.vc.emit(fmt.Sprintf("(declare-fun %s (Int) Int)", perm))
+	tr.vc.emit(fmt.Sprintf("(declare-fun %s (Int) Int)", inv))
+	lo := "(soff " + s + ")"
+	hi := app("+", "(soff "+s+")", "(sllen "+s+")")
+	in := func(x Term) Term { return and(app("<=", lo, x), app("<", x, hi)) }
+	tr.vc.assume(fmt.Sprintf("(forall ((j Int)) (! (ite %s (and %s (= (select %s j) (select %s (%s j)))) (= (select %s j) (select %s j))) :pattern ((select %s j))))", in("j"), in("("+perm+" j)"), nb, old, perm, nb, old, nb))
+	tr.vc.assume(fmt.Sprintf("(forall ((j Int)) (! (=> %s (and %s (= (%s (%s j)) j))) :pattern ((select %s j))))", in("j"), in("("+inv+" j)"), perm, inv, old))
+	tr.setState(st, h, store(A, "(sarr "+s+")", nb), "(sarr "+s+")")
+	tr.note("sort.Slice permutes the slice (the resulting order is not modelled)")
+	return true
 }
